@@ -362,6 +362,37 @@ ITER_WRITES = [
 ]
 
 
+# an inner loop that is not entered at all (its condition is false or null the first time, its range is empty) takes nothing from
+# the loop around it
+def notentered_cases():
+    outers = {"for": ("for wi in 1 to 3 loop", "print wi;", "end loop;", ["1", "2", "3"]),
+              "for-desc": ("for wi in 3 to 1 desc loop", "print wi;", "end loop;", ["3", "2", "1"]),
+              "forall": ("wt = tab(0, 0).concat(4).concat(5).concat(6); forall we in wt loop", "print we;", "end loop; wt.concat(7); print wt.count();", ["4", "5", "6", "4"]),
+              "while": ("wn = 0; while wn < 3 loop wn = wn + 1;", "print wn;", "end loop;", ["1", "2", "3"])}
+    inners = {"while-false": "while false loop print \"in\"; end loop;", "while-null": "while vn loop print \"in\"; end loop;",
+              "while-false-var": "while wn9 > 5 loop print \"in\"; end loop;", "for-empty": "for wk in 2 to 1 asc loop print \"in\"; end loop;",
+              "for-null": "for wk in 1 to ni loop print \"in\"; end loop;", "forall-empty": "forall wq in tab(0, 1) loop print \"in\"; end loop;",
+              "forall-null": "forall wq in wnt loop print \"in\"; end loop;", "two-whiles": "while false loop nop; end loop; while vn loop nop; end loop;",
+              "while-after-run": "wm = 0; while wm < 1 loop wm = wm + 1; end loop; while wm < 1 loop print \"in\"; end loop;"}
+    for on, (head, show, tail, seq) in outers.items():
+        for inn, inner in inners.items():
+            for place in ("before", "after"):
+                body = (inner + " " + show) if place == "before" else (show + " " + inner)
+                prog = "wn9 = 0; wnt = tab(0, 1); wnt = null; %s %s %s print \"done\";" % (head, body, tail)
+                yield "%s:%s:%s" % (on, inn, place), prog, "".join(x + "\n" for x in seq) + "done\n"
+
+
+def notentered_gen(tier):
+    def gen():
+        n = 0
+        for tag, prog, want in notentered_cases():
+            for route in (("cpp", "capi") if tier == "thorough" else ("cpp",)):
+                ops = [op_ctx(), op_run(DECL + " vn = bool(); ni = int();"), op_run(prog, route=route), op_out(), op_dump(0, "I1"), op_run(PROBES), op_out(), op_dump(0, "I")]
+                yield Case("ne%d" % n, ops, {"kind": "ifchain", "tag": "inner-loop-not-entered:" + tag.rsplit(":", 1)[0], "where": route, "prog": prog, "want": want})
+                n += 1
+    return gen
+
+
 def iterwrites_gen(tier):
     def gen():
         n = 0
@@ -564,6 +595,7 @@ def run(tier):
     total.merge(explore("%s-%s-stray" % (PROP, tier), stray_gen(tier), check, chunk=20, deadline=deadline))
     total.merge(explore("%s-%s-forall-sources" % (PROP, tier), sources_gen(tier), check, chunk=50, deadline=deadline))
     total.merge(explore("%s-%s-iterator-writes" % (PROP, tier), iterwrites_gen(tier), check, chunk=20, deadline=deadline))
+    total.merge(explore("%s-%s-inner-loop-not-entered" % (PROP, tier), notentered_gen(tier), check, chunk=20, deadline=deadline))
     from . import c09
     total.merge(explore("%s-%s-lock" % (PROP, tier), c09.forall_gen(tier), check, chunk=50, deadline=deadline))
     total.merge(explore("%s-%s-nesting" % (PROP, tier), nest_gen(tier), check, chunk=200, deadline=deadline))
